@@ -110,6 +110,9 @@ class Slot:
     code: str
 
 
+_PURE_STR_METHODS = ("strip", "lstrip", "rstrip", "removeprefix", "removesuffix", "replace", "lower", "upper", "join", "hex")
+
+
 class StructVal:
     def __init__(self, fmt: str):
         self.fmt = fmt
@@ -367,6 +370,36 @@ class Repo:
                     self.modules[rel] = Module(self, rel, path)
                 except SyntaxError as ex:
                     raise AnalysisError(f"cannot parse {path}: {ex}")
+        if not os.environ.get("VERIF_NO_CANON"):
+            self._keywordise()
+
+    def _keywordise(self):
+        """Normal form for constructions of the package's own dataclasses: positional arguments become keyword arguments through
+        the field order (`At5Header(a, b, c, d, e)` == `At5Header(to_address=a, ...)`).  Evaluation order is unchanged (the
+        arguments keep their order).  Calls with a starred argument, classes with their own __init__ or a dataclass base are left."""
+        for m in self.modules.values():
+            for c in ast.walk(m.tree):
+                if not (isinstance(c, ast.Call) and c.args and dotted(c.func)) or any(isinstance(a, ast.Starred) for a in c.args):
+                    continue
+                try:
+                    ci = self.resolve_class(m, c.func)
+                except AnalysisError:
+                    ci = None
+                if ci is None or not ci.is_dataclass or ci.is_enum() or "__init__" in ci.methods or not ci.fields:
+                    continue
+                if any((bc := self.resolve_class(ci.module, b.value if isinstance(b, ast.Subscript) else b)) is not None and bc.is_dataclass for b in ci.bases if dotted(b.value if isinstance(b, ast.Subscript) else b)):
+                    continue
+                names = [n for n, _, _ in ci.fields]
+                used = {k.arg for k in c.keywords}
+                if len(c.args) > len(names) or any(names[i] in used for i in range(len(c.args))) or None in used:
+                    continue
+                new = []
+                for i, a in enumerate(c.args):
+                    kw = ast.keyword(arg=names[i], value=a)
+                    ast.copy_location(kw, a)
+                    new.append(kw)
+                c.keywords = new + c.keywords
+                c.args = []
 
     # ------------------------------------------------------------------
     def module(self, name: str) -> Module:
@@ -517,6 +550,8 @@ class Repo:
                         return base.name
                     if isinstance(base, StructVal) and expr.attr == "size":
                         return base.size
+                    if isinstance(base, StructVal) and expr.attr == "format":
+                        return base.fmt
                     if isinstance(base, DCVal) and expr.attr in base.fields:
                         return base.fields[expr.attr]
             s = self.resolve(module, expr)
@@ -704,10 +739,15 @@ class Repo:
                 v = f(expr.args[0])
                 if isinstance(v, (bytes, str, tuple, list)):
                     return len(v)
-            if isinstance(expr.func, ast.Attribute) and expr.func.attr == "strip" and len(expr.args) <= 1:
+            if isinstance(expr.func, ast.Attribute) and expr.func.attr in _PURE_STR_METHODS and len(expr.args) <= 2 and not expr.keywords:
                 base = f(expr.func.value)
                 if isinstance(base, (bytes, str)):
-                    return base.strip(*[f(a) for a in expr.args])
+                    try:
+                        return getattr(base, expr.func.attr)(*[f(a) for a in expr.args])
+                    except NotConst:
+                        raise
+                    except Exception as ex:
+                        raise NotConst(str(ex))
             ci = self.resolve_class(module, expr.func) if dotted(expr.func) else None
             if ci is not None and ci.is_dataclass:
                 names = [n for n, _, _ in ci.fields]
